@@ -45,9 +45,9 @@ def deep_subset(want, got):
     return type(want) == type(got) and want == got
 
 
-def expected_values(params, v):
-    """the caller's values plus defaults and constants (what decode must return);
-    length keys and reserved / matching-request parameters are not predicted here"""
+def expected_values(params, v, req=None):
+    """the caller's values plus defaults, constants and the mirrored request bytes (what decode must return);
+    length keys and reserved parameters are not predicted here"""
     exp = {}
     for p in params:
         kd = p["kind"]
@@ -56,12 +56,12 @@ def expected_values(params, v):
         if k == "value":
             if nm in v and v[nm] is not None:
                 if kd["dop"]["k"] == "struct" and isinstance(v[nm], dict):
-                    exp[nm] = expected_values(kd["dop"]["params"], v[nm])
+                    exp[nm] = expected_values(kd["dop"]["params"], v[nm], req)
                 elif kd["dop"]["k"] == "mux":
                     exp[nm] = expected_mux(kd["dop"], v[nm])
                 elif kd["dop"]["k"] in ("static", "dynlen", "eop", "endmarker") and isinstance(v[nm], list):
                     sp = kd["dop"]["s"]["params"]
-                    exp[nm] = [expected_values(sp, it) if isinstance(it, dict) else it for it in v[nm]]
+                    exp[nm] = [expected_values(sp, it, req) if isinstance(it, dict) else it for it in v[nm]]
                 else:
                     exp[nm] = v[nm]
                     d = kd["dop"]
@@ -73,6 +73,10 @@ def expected_values(params, v):
                 exp[nm] = kd["dflt"]
         elif k in ("coded", "physconst"):
             exp[nm] = kd["v"]
+        elif k == "matchreq" and req is not None and len(req) >= kd["rqpos"] + kd["len"]:
+            # MATCHING-REQUEST-PARAM: the bytes of the triggering request (they are read back as an unsigned integer,
+            # least significant byte first)
+            exp[nm] = int.from_bytes(bytes(req)[kd["rqpos"]:kd["rqpos"] + kd["len"]], "little")
     return exp
 
 
@@ -505,7 +509,7 @@ def main(pid, argv=None):
                                 bad = f"the encoded PDU {pdu.hex()} does not decode (outcome {dec})"
                             else:
                                 got = cc.unw_value(dec[1])
-                                want = expected_values(c.params, e["value"])
+                                want = expected_values(c.params, e["value"], e["req"])
                                 if not deep_subset(want, got):
                                     bad = (f"decode(encode(v)) differs from v: PDU {pdu.hex()} decodes to "
                                            f"{got!r}, expected at least {want!r}")
@@ -1095,6 +1099,36 @@ def check_static(ck, c, model_ok):
         if sorted(settable) != sorted(free):
             ck.violation(f"free parameters reported {free}, settable are {settable}", rep(c))
             return
+    # not free = the caller cannot set it: a value given for such a parameter is rejected or has no influence on the PDU
+    base0 = next((e for e in c.encs if e["impl"][0] == 0 and not e["impl"][2] and isinstance(e["value"], dict)), None)
+    if base0 is not None:
+        pdu0 = bytes(base0["impl"][1])
+        for p in c.params:
+            nm, kd = p["name"], p["kind"]
+            if nm in free or nm in base0["value"]:
+                continue
+            k = kd["k"]
+            if k == "reserved":
+                alts = [1, (1 << kd["bl"]) - 1]
+            elif k == "coded":
+                alts = [kd["v"] ^ 1] if isinstance(kd["v"], int) else []
+            elif k == "physconst":
+                alts = [kd["v"] + 1] if isinstance(kd["v"], int) and not isinstance(kd["v"], bool) else []
+            elif k == "matchreq":
+                alts = [0x5A, b"\x5a" * kd["len"]]
+            elif k == "nrc":
+                alts = [kd["vs"][0], 0x7E]
+            else:
+                alts = []
+            for x in alts:
+                v2 = dict(base0["value"])
+                v2[nm] = x
+                ck.count(("s-notfree", json.dumps(c.params, default=repr), nm, repr(x)))
+                r2 = cc.impl_encode(c.obj, v2, base0["req"])
+                if r2[0] == 0 and bytes(r2[1]) != pdu0:
+                    ck.violation(f"parameter {nm} ({k}) is not reported as free, but the value {x!r} given for it changes the "
+                                 f"PDU from {pdu0.hex()} to {bytes(r2[1]).hex()}", rep(c, value=v2, req=base0["req"]))
+                    return
     # responses which mirror request bytes: the same response object asked again with other triggering requests of the
     # same length, with every proper prefix of the request and with a longer one (a response object is shared by
     # services; what it reported for one request says nothing about the next)
@@ -1262,6 +1296,15 @@ def _tab(pts):
         for x, y in pts) + "</COMPU-SCALES></COMPU-INTERNAL-TO-PHYS></COMPU-METHOD>")
 
 
+def _ratfunc_cm(cat, num, den, inv_num, inv_den):
+    def sc(n, d):
+        return ("<COMPU-SCALE><COMPU-RATIONAL-COEFFS><COMPU-NUMERATOR>" + "".join(f"<V>{x}</V>" for x in n) + "</COMPU-NUMERATOR>"
+                "<COMPU-DENOMINATOR>" + "".join(f"<V>{x}</V>" for x in d) + "</COMPU-DENOMINATOR></COMPU-RATIONAL-COEFFS></COMPU-SCALE>")
+    return (f"<COMPU-METHOD><CATEGORY>{cat}</CATEGORY><COMPU-INTERNAL-TO-PHYS><COMPU-SCALES>{sc(num, den)}</COMPU-SCALES>"
+            f"</COMPU-INTERNAL-TO-PHYS><COMPU-PHYS-TO-INTERNAL><COMPU-SCALES>{sc(inv_num, inv_den)}</COMPU-SCALES>"
+            "</COMPU-PHYS-TO-INTERNAL></COMPU-METHOD>")
+
+
 REAL_DOPS = [
     # (name, bits, compu method): injective conversions into a real-valued physical type
     ("lin_fine", 16, "<COMPU-METHOD><CATEGORY>LINEAR</CATEGORY><COMPU-INTERNAL-TO-PHYS><COMPU-SCALES>" + _lin(-40, 0.005) +
@@ -1273,6 +1316,10 @@ REAL_DOPS = [
     ("tab_dec_prec", 8, _tab([(0, 10), (255, 0)]), '<PHYSICAL-TYPE BASE-DATA-TYPE="A_FLOAT64"><PRECISION>1</PRECISION></PHYSICAL-TYPE>'),
     ("scale_lin", 8, "<COMPU-METHOD><CATEGORY>SCALE-LINEAR</CATEGORY><COMPU-INTERNAL-TO-PHYS><COMPU-SCALES>" + _lin(0, 0.5, 0, 100) +
      _lin(25, 0.25, 100, 255) + "</COMPU-SCALES></COMPU-INTERNAL-TO-PHYS></COMPU-METHOD>", None),
+    # rational functions with a denominator polynomial which is not constant (no pole in the coded range):
+    # p = 200 / (x + 2), x = (200 - 2 p) / p;   p = (3 + x) / (1 + 2 x), x = (3 - p) / (2 p - 1) (decreasing, p > 1/2)
+    ("rat_hyp", 8, _ratfunc_cm("RAT-FUNC", [200], [2, 1], [200, -2], [0, 1]), None),
+    ("srat_moeb", 8, _ratfunc_cm("SCALE-RAT-FUNC", [3, 1], [1, 2], [3, -1], [-1, 2]), None),
 ]
 
 
@@ -1547,6 +1594,7 @@ def unmodelled_composites_decode(ck):
         # trouble codes, known and unknown, in front of short tails; table keys
         tails_b = [bytes.fromhex(h) + t for h in ("112233", "445566", "778899", "000000", "1122") for t in cr.small_strings([0, 1, 0xFF], 3)]
         tails_b += [bytes([k]) + t for k in (1, 7, 200, 0, 2) for t in cr.small_strings([0, 5, 0xFF], 3)]
+        tails_b += [k + t for k in (b"AB", b"CD", b"ZZ", b"A", b"\xff\xfe") for t in cr.small_strings([0, 5], 3)]
     except Exception as e:  # noqa
         ck.note_broken(f"cannot load the DTC / environment data / table document: {type(e).__name__}: {e}")
         tails_b = []
@@ -1615,7 +1663,8 @@ def _udop(name, bits):
 
 DTC_A, DTC_B, DTC_C = 0x112233, 0x445566, 0x778899
 # trouble codes, environment data which depends on the trouble code of the same list item, tables
-UNMODELLED_DOC2 = (
+def unmodelled_doc2(env_order=("all", "a", "b")):
+  return (
     f'<?xml version="1.0" encoding="UTF-8"?><ODX MODEL-VERSION="2.2.0" {_XSI}>'
     '<DIAG-LAYER-CONTAINER ID="DLC"><SHORT-NAME>DLC</SHORT-NAME><BASE-VARIANTS><BASE-VARIANT ID="BV"><SHORT-NAME>BV</SHORT-NAME>'
     '<DIAG-DATA-DICTIONARY-SPEC>'
@@ -1626,9 +1675,12 @@ UNMODELLED_DOC2 = (
               for n, v in (("a", DTC_A), ("b", DTC_B), ("c", DTC_C))) +
     '</DTCS></DTC-DOP></DTC-DOPS>'
     '<ENV-DATA-DESCS><ENV-DATA-DESC ID="edd"><SHORT-NAME>edd</SHORT-NAME><PARAM-SNREF SHORT-NAME="dtc"/>'
-    '<ENV-DATA-REFS><ENV-DATA-REF ID-REF="ed.all"/><ENV-DATA-REF ID-REF="ed.a"/><ENV-DATA-REF ID-REF="ed.b"/></ENV-DATA-REFS>'
+    '<ENV-DATA-REFS>' + "".join(f'<ENV-DATA-REF ID-REF="ed.{x}"/>' for x in env_order) + '</ENV-DATA-REFS>'
     '</ENV-DATA-DESC></ENV-DATA-DESCS>'
-    f'<DATA-OBJECT-PROPS>{_udop("u8", 8)}{_udop("u16", 16)}</DATA-OBJECT-PROPS>'
+    f'<DATA-OBJECT-PROPS>{_udop("u8", 8)}{_udop("u16", 16)}'
+    '<DATA-OBJECT-PROP ID="txt2"><SHORT-NAME>txt2</SHORT-NAME><COMPU-METHOD><CATEGORY>IDENTICAL</CATEGORY></COMPU-METHOD>'
+    '<DIAG-CODED-TYPE BASE-DATA-TYPE="A_ASCIISTRING" xsi:type="STANDARD-LENGTH-TYPE"><BIT-LENGTH>16</BIT-LENGTH></DIAG-CODED-TYPE>'
+    '<PHYSICAL-TYPE BASE-DATA-TYPE="A_UNICODE2STRING"/></DATA-OBJECT-PROP></DATA-OBJECT-PROPS>'
     f'<STRUCTURES><STRUCTURE ID="item"><SHORT-NAME>item</SHORT-NAME><PARAMS>{_vp("dtc", 0, "dtcdop")}{_vp("env", 3, "edd")}</PARAMS></STRUCTURE>'
     f'<STRUCTURE ID="pair"><SHORT-NAME>pair</SHORT-NAME><PARAMS>{_vp("k", 0, "u8")}{_vp("d", 1, "u16")}</PARAMS></STRUCTURE></STRUCTURES>'
     '<END-OF-PDU-FIELDS><END-OF-PDU-FIELD ID="items"><SHORT-NAME>items</SHORT-NAME><BASIC-STRUCTURE-REF ID-REF="item"/></END-OF-PDU-FIELD></END-OF-PDU-FIELDS>'
@@ -1640,9 +1692,18 @@ UNMODELLED_DOC2 = (
     '<TABLE-ROW ID="tab.r1"><SHORT-NAME>r1</SHORT-NAME><KEY>1</KEY><STRUCTURE-REF ID-REF="pair"/></TABLE-ROW>'
     '<TABLE-ROW ID="tab.r2"><SHORT-NAME>r2</SHORT-NAME><KEY>7</KEY><DATA-OBJECT-PROP-REF ID-REF="u16"/></TABLE-ROW>'
     '<TABLE-ROW ID="tab.r3"><SHORT-NAME>r3</SHORT-NAME><KEY>200</KEY><DATA-OBJECT-PROP-REF ID-REF="u8"/></TABLE-ROW>'
+    '</TABLE>'
+    # a table whose keys are texts
+    '<TABLE ID="tabt"><SHORT-NAME>tabt</SHORT-NAME><KEY-DOP-REF ID-REF="txt2"/>'
+    '<TABLE-ROW ID="tabt.r1"><SHORT-NAME>t1</SHORT-NAME><KEY>AB</KEY><DATA-OBJECT-PROP-REF ID-REF="u16"/></TABLE-ROW>'
+    '<TABLE-ROW ID="tabt.r2"><SHORT-NAME>t2</SHORT-NAME><KEY>CD</KEY><STRUCTURE-REF ID-REF="pair"/></TABLE-ROW>'
     '</TABLE></TABLES>'
     '</DIAG-DATA-DICTIONARY-SPEC>'
-    f'<REQUESTS><REQUEST ID="rq_tab"><SHORT-NAME>rq_tab</SHORT-NAME><PARAMS>{_cc("sid", 0, 0x31)}'
+    f'<REQUESTS><REQUEST ID="rq_tabt"><SHORT-NAME>rq_tabt</SHORT-NAME><PARAMS>{_cc("sid", 0, 0x32)}'
+    '<PARAM ID="rq_tabt.key" xsi:type="TABLE-KEY"><SHORT-NAME>key</SHORT-NAME><BYTE-POSITION>1</BYTE-POSITION><TABLE-REF ID-REF="tabt"/></PARAM>'
+    '<PARAM xsi:type="TABLE-STRUCT"><SHORT-NAME>data</SHORT-NAME><BYTE-POSITION>3</BYTE-POSITION><TABLE-KEY-REF ID-REF="rq_tabt.key"/></PARAM>'
+    '</PARAMS></REQUEST>'
+    f'<REQUEST ID="rq_tab"><SHORT-NAME>rq_tab</SHORT-NAME><PARAMS>{_cc("sid", 0, 0x31)}'
     '<PARAM ID="rq_tab.key" xsi:type="TABLE-KEY"><SHORT-NAME>key</SHORT-NAME><BYTE-POSITION>1</BYTE-POSITION><TABLE-REF ID-REF="tab"/></PARAM>'
     '<PARAM xsi:type="TABLE-STRUCT"><SHORT-NAME>data</SHORT-NAME><BYTE-POSITION>2</BYTE-POSITION><TABLE-KEY-REF ID-REF="rq_tab.key"/></PARAM>'
     '</PARAMS></REQUEST>'
@@ -1651,6 +1712,9 @@ UNMODELLED_DOC2 = (
     f'<POS-RESPONSES><POS-RESPONSE ID="pr_list"><SHORT-NAME>pr_list</SHORT-NAME><PARAMS>{_cc("sid", 0, 0x59)}{_vp("dtc_list", 1, "items")}</PARAMS></POS-RESPONSE>'
     '</POS-RESPONSES>'
     '</BASE-VARIANT></BASE-VARIANTS></DIAG-LAYER-CONTAINER></ODX>')
+
+
+UNMODELLED_DOC2 = unmodelled_doc2()
 
 
 def _norm_dtc(v):
@@ -1676,6 +1740,17 @@ def unmodelled_composites_roundtrip2(ck):
         return
     raw = db.diag_layers[0].diag_layer_raw
     resp = raw.positive_responses[0]
+    import itertools
+    # the same response with the environment data listed in every other order (the ALL-VALUE one need not come first):
+    # the wire format does not depend on that order (common data first, then the data of the trouble code)
+    others = []
+    for order in itertools.permutations(("all", "a", "b")):
+        if order == ("all", "a", "b"):
+            continue
+        try:
+            others.append((order, hc.load_docs([unmodelled_doc2(order)]).diag_layers[0].diag_layer_raw.positive_responses[0]))
+        except Exception as e:  # noqa
+            ck.note_broken(f"cannot load the environment data document with order {order}: {type(e).__name__}: {e}")
     # item -> (value, wire bytes)
     kinds = {
         "a": ({"dtc": DTC_A, "env": {"status": 0x11, "temperature": 0x55}}, bytes.fromhex("112233" "11" "55")),
@@ -1683,15 +1758,15 @@ def unmodelled_composites_roundtrip2(ck):
         "b": ({"dtc": DTC_B, "env": {"status": 0x21, "speed": 0x1234, "voltage": 0x0C}}, bytes.fromhex("445566" "21" "1234" "0c")),
         "c": ({"dtc": DTC_C, "env": {"status": 0x31}}, bytes.fromhex("778899" "31")),
     }
-    import itertools
     n = 0
-    for ln in (0, 1, 2, 3):
+    for order, resp in [(("all", "a", "b"), resp)] + others:
+      for ln in ((0, 1, 2, 3) if order == ("all", "a", "b") else (1, 2)):
         for combo in itertools.product(sorted(kinds), repeat=ln):
             n += 1
-            ck.count(("envdata", combo))
+            ck.count(("envdata", order, combo))
             lst = [kinds[k][0] for k in combo]
             want = bytes([0x59]) + b"".join(kinds[k][1] for k in combo)
-            rep_ = {"document": "harness/codec_checks.py UNMODELLED_DOC2", "response": "pr_list", "items": list(combo)}
+            rep_ = {"document": f"harness/codec_checks.py unmodelled_doc2({order})", "response": "pr_list", "items": list(combo)}
             r, e, _ = cc.guarded(lambda: bytes(resp.encode(dtc_list=lst)), timeout=3)
             if e is not None or r != want:
                 ck.violation(f"pr_list with the items {list(combo)} is encoded as {r.hex() if e is None else repr(e)}, "
@@ -1728,6 +1803,21 @@ def unmodelled_composites_roundtrip2(ck):
         d, e2, _ = cc.guarded(lambda: rq.decode(r), timeout=3)
         if e2 is not None or d.get("key") != row or tuple(d.get("data", ())) != (row, val):
             ck.violation(f"rq_tab: decode(encode(data=({row!r}, {val!r}))) = {d!r} {e2!r}", rep_)
+            return
+    rq = [x for x in raw.requests if x.short_name == "rq_tabt"][0]
+    for row, key, val, wire in (("t1", b"AB", 0xBEEF, "beef"), ("t2", b"CD", {"k": 5, "d": 0x1234}, "051234")):
+        n += 1
+        want = bytes([0x32]) + key + bytes.fromhex(wire)
+        ck.count(("table-text-key", row, repr(val)))
+        rep_ = {"document": "harness/codec_checks.py UNMODELLED_DOC2", "request": "rq_tabt", "row": row, "value": repr(val)}
+        r, e, _ = cc.guarded(lambda: bytes(rq.encode(data=(row, val))), timeout=3)
+        if e is not None or r != want:
+            ck.violation(f"rq_tabt with data=({row!r}, {val!r}) is encoded as {r.hex() if e is None else repr(e)}, "
+                         f"the ODX layout prescribes {want.hex()}", rep_)
+            return
+        d, e2, _ = cc.guarded(lambda: rq.decode(r), timeout=3)
+        if e2 is not None or d.get("key") != row or tuple(d.get("data", ())) != (row, val):
+            ck.violation(f"rq_tabt: decode(encode(data=({row!r}, {val!r}))) = {d!r} {e2!r}", rep_)
             return
     ck.coverage["dtc_envdata_table_messages"] = n
 
